@@ -56,6 +56,17 @@ class GrammarGen:
         t = rng.random()
         if depth <= 0 or t < 0.25:
             return self.leaf(k, n, guarded)
+        if t < 0.31:
+            # a choice among many plain strings (keyword lists): several share prefixes, the empty string may be one of them
+            base = self.ch() + (self.ch() if rng.random() < 0.5 else "")
+            pool = ["", base, base[:1], base + self.ch(), base + base, self.ch(), self.ch() + self.ch(), base.swapcase(),
+                    base + self.ch() + self.ch(), self.ch() + base]
+            m = rng.randint(4, 10)
+            lits = [rng.choice(pool) if rng.random() < 0.8 else "".join(self.ch() for _ in range(rng.randint(1, 3))) for _ in range(m)]
+            if rng.random() < 0.5:
+                lits = list(dict.fromkeys(lits))
+            cs = rng.random() < 0.3
+            return ("alt", [("lit", x, cs if rng.random() < 0.8 else not cs) for x in lits], rng.random() < self.p_flag * 0.5)
         if t < 0.45:
             return ("alt", [self.expr(depth - 1, k, n, guarded) for _ in range(rng.randint(2, 3))],
                     rng.random() < self.p_flag)
@@ -141,10 +152,36 @@ def _retire_old_classes(P, cls):
         gc.collect()
 
 
-def build(P, grammar, tag=[0]):
+def twin(grammar):
+    """A grammar of the SAME shape and rule names whose leaves differ (every literal character and range bound moved to
+    its neighbour): every repetition / rule of the twin PRINTS like its counterpart wherever it contains no literal, but
+    matches other text - state keyed on how a parser prints, on rule names or on class names shows up as a wrong answer."""
+    def ch(c):
+        k = BASE_ALPH.find(c)
+        return BASE_ALPH[(k + 1) % len(BASE_ALPH)] if k >= 0 else ("b" if c != "b" else "a")
+
+    def tw(e):
+        k = e[0]
+        if k == "lit":
+            return ("lit", "".join(ch(c) for c in e[1]), e[2])
+        if k == "range":
+            return ("range", min(e[1] + 1, 0x10FFFF), min(e[2] + 1, 0x10FFFF))
+        if k == "alt":
+            return ("alt", [tw(x) for x in e[1]], e[2])
+        if k == "cat":
+            return ("cat", [tw(x) for x in e[1]])
+        if k == "rep":
+            return ("rep", e[1], e[2], tw(e[3]))
+        if k == "opt":
+            return ("opt", tw(e[1]))
+        return e
+    return [(n, tw(b), x) for n, b, x in grammar]
+
+
+def build(P, grammar, tag=[0], name=None):
     """Build the grammar through the public object API in a fresh Rule subclass."""
     tag[0] += 1
-    cls = type(f"Gen{tag[0]}", (P.Rule,), {})
+    cls = type(name or f"Gen{tag[0]}", (P.Rule,), {})
     _retire_old_classes(P, cls)
     rules = [cls(name) for name, _, _ in grammar] + [cls("undefined-rule")]
 
